@@ -142,3 +142,12 @@ pub enum ExecutionKind {
     Build,
     Service,
 }
+
+#[cfg(zinoma_verif)]
+impl TargetActorHandleSet {
+    pub fn verif_invalidate(&self) -> bool {
+        self._target_invalidated_sender
+            .try_send(TargetInvalidatedMessage)
+            .is_ok()
+    }
+}
